@@ -69,6 +69,15 @@ def match(pid, fail):
     if pid == "C09" and fail.get("check") == "swap" and fail.get("returned_rounded_to_struct_alignment") \
             and "swap returned offset" in what:
         return "raw-swap-greedy-return-rounded"
+    if pid == "C14" and fail.get("check") == "expr" and str(fail.get("context", "")).startswith("isar -> c++"):
+        # the same raw text read by the C++ compiler: explained only if C/C++
+        # operator precedence gives exactly what was observed (or no constant
+        # expression at all) and the text contains a shift
+        text = str(fail.get("text", ""))
+        if ("<<" in text or ">>" in text or "--" in text) and fail.get("c_value") == fail.get("observed") \
+                and fail.get("observed") != fail.get("value"):
+            return "isar-raw-expression-text"
+        return None
     if pid == "C14" and fail.get("check") == "expr" and str(fail.get("context", "")).startswith("isar"):
         ctx = str(fail.get("context"))
         text = ctx[ctx.find("(") + 1:] if "(" in ctx else str(fail.get("min")) + str(fail.get("full"))
